@@ -34,9 +34,12 @@ func zzInstallStandIn() string {
 	if err := os.WriteFile(filepath.Join(dir, "midicat"), []byte(zzStandIn), 0o755); err != nil {
 		panic(err)
 	}
-	os.Setenv("PATH", dir+string(os.PathListSeparator)+os.Getenv("PATH"))
+	zzPathWithHelper = dir + string(os.PathListSeparator) + os.Getenv("PATH")
+	os.Setenv("PATH", zzPathWithHelper)
 	return dir
 }
+
+var zzPathWithHelper string
 
 func zzHideHelper(hide bool) {
 	if zz.Symbolic() {
@@ -44,6 +47,8 @@ func zzHideHelper(hide bool) {
 	}
 	if hide {
 		os.Setenv("PATH", "/nonexistent-verif")
+	} else {
+		os.Setenv("PATH", zzPathWithHelper) // several vectors run in one process: always restore
 	}
 }
 
